@@ -63,6 +63,7 @@ fn new_task(fut: BoxFut) -> Task {
 enum Item {
     Good(u64),           // a wantlist update wanting key k
     Bad(&'static str),   // a frame of the given bad kind
+    Empty(u8),           // a valid frame with nothing to forward: the stream must go on
 }
 
 fn encode(m: &Message) -> Vec<u8> {
@@ -79,6 +80,20 @@ fn want_frame(k: u64) -> Vec<u8> {
         }),
         ..Default::default()
     })
+}
+
+/// Valid frames that leave nothing to forward: the empty message, a message whose only block
+/// uses a multihash code no hasher knows (skipped, not fatal), a message with unknown fields only.
+fn empty_frame(kind: u8) -> Vec<u8> {
+    match kind {
+        0 => encode(&Message::default()),
+        1 => encode(&Message {
+            // CIDv1, raw, multihash code 0x7777, digest length 4
+            payload: vec![v::Block { prefix: vec![0x01, 0x55, 0xf7, 0xee, 0x01, 0x04], data: vec![9, 9, 9] }],
+            ..Default::default()
+        }),
+        _ => vec![0x03, 0x38, 0x96, 0x01], // field 7, varint 150: unknown to the schema
+    }
 }
 
 fn bad_frame(kind: &str, rng: &mut Rng) -> Vec<u8> {
@@ -101,12 +116,17 @@ fn bad_frame(kind: &str, rng: &mut Rng) -> Vec<u8> {
         "nested-overrun" => crate::text::unhex("0e0a020a031081001d010203040506").unwrap(),
         "nested-overrun-huge" => crate::text::unhex("110a020a0218011af1ffffffffffffffff01").unwrap(),
         "nested-overrun-wrap" => crate::text::unhex("121a030a022d8f1af1ffffffffffffffff0100").unwrap(),
+        "nested-overrun-wide" => {
+            // the same class with the tags written as wide varints (quick-protobuf keeps the low 32 bits)
+            let w = crate::text::unhex(*rng.pick(&["0e0a020a031081001d010203040506", "110a020a0218011af1ffffffffffffffff01", "121a030a022d8f1af1ffffffffffffffff0100"])).unwrap();
+            crate::refpb::frame(&crate::streams::codec::widen_tags(rng, &w[1..], 0, true))
+        }
         "v0-bad-prefix" => encode(&Message { payload: vec![v::Block { prefix: vec![0x00, 0x55, 0x12, 0x20], data: vec![1, 2, 3] }], ..Default::default() }),
         _ => vec![0x01, 0xff],
     }
 }
 
-const BAD_KINDS: [&str; 11] = ["oversize", "nonminimal", "overlong", "garbage", "truncated-field", "bad-presence-cid", "bad-block-prefix", "v0-bad-prefix", "nested-overrun", "nested-overrun-huge", "nested-overrun-wrap"];
+const BAD_KINDS: [&str; 12] = ["nested-overrun-wide", "oversize", "nonminimal", "overlong", "garbage", "truncated-field", "bad-presence-cid", "bad-block-prefix", "v0-bad-prefix", "nested-overrun", "nested-overrun-huge", "nested-overrun-wrap"];
 
 pub struct RawResult {
     pub violations: Vec<(String, String)>,
@@ -167,6 +187,8 @@ pub fn run_one(seed: u64) -> RawResult {
         for _ in 0..n {
             if rng.chance(1, 3) {
                 items.push(Item::Bad(*rng.pick(&BAD_KINDS)));
+            } else if rng.chance(1, 4) {
+                items.push(Item::Empty(rng.below(3) as u8));
             } else {
                 items.push(Item::Good(rng.below(6) as u64));
             }
@@ -180,6 +202,7 @@ pub fn run_one(seed: u64) -> RawResult {
         for it in items {
             match it {
                 Item::Good(k) => expected.push(*k),
+                Item::Empty(_) => {}
                 Item::Bad(_) => break,
             }
         }
@@ -192,6 +215,7 @@ pub fn run_one(seed: u64) -> RawResult {
             match it {
                 Item::Good(k) => all.extend(want_frame(*k)),
                 Item::Bad(kind) => all.extend(bad_frame(kind, &mut rng)),
+                Item::Empty(kind) => all.extend(empty_frame(*kind)),
             }
         }
         let mut chunks = vec![];
